@@ -134,6 +134,7 @@ func runSleep(c *Case) *Obs {
 //      ["pause", ns]                 controller sleeps
 //      ["aftertick", offset_ns]      controller waits for the next tick and then until tick + offset
 //      ["join"]                      controller waits for all dispatched calls
+//      ["hold"] / ["go"]             calls dispatched to workers after "hold" start together at "go"
 // events: ["call", th, op, d, j, t] ["ret", th, op, d, j, "ok"|"panic", t] ["recv", v, t]
 
 type tickerScn struct {
@@ -149,6 +150,7 @@ type tickerScn struct {
 	rdone   chan struct{}
 	mu      sync.Mutex
 	lastOp  atomic.Value // name of the last call that returned
+	gate    *atomic.Bool // non-nil between "hold" and "go": dispatched worker calls spin on it
 }
 
 func (s *tickerScn) note(k string, v any) {
@@ -200,8 +202,16 @@ func (s *tickerScn) dispatch(th int, op string, d, j int64, f func()) {
 		}()
 	}
 	s.pending.Add(1)
+	gate := s.gate
 	ch <- func() {
 		defer s.pending.Done()
+		if gate != nil {
+			for n := 0; !gate.Load(); n++ { // spin: the calls should start within nanoseconds of each other
+				if n%64 == 63 {
+					runtime.Gosched()
+				}
+			}
+		}
 		s.call(th, op, d, j, f)
 	}
 }
@@ -291,9 +301,26 @@ func runTicker(c *Case) *Obs {
 			if s.nticks.Load() != n0 {
 				s.waitUntil(s.last.Load() + num(op[1]))
 			}
+		case "hold":
+			if s.gate == nil {
+				s.gate = new(atomic.Bool)
+			}
+		case "go":
+			if s.gate != nil {
+				s.gate.Store(true)
+				s.gate = nil
+			}
 		case "join":
+			if s.gate != nil {
+				s.gate.Store(true)
+				s.gate = nil
+			}
 			s.join()
 		}
+	}
+	if s.gate != nil {
+		s.gate.Store(true)
+		s.gate = nil
 	}
 	s.join()
 	// clean up: stop the receiver, stop the ticker (best effort: the mutex may be held forever after a panic)
